@@ -49,7 +49,10 @@ def run(tier, seed):
                 # all-day constituents (DTSTART;VALUE=DATE, code day * 100000) among timed ones over the same days: an all-day occurrence goes before every timed one of its day
                 if rnd.random() < 0.45: ts = sorted(rnd.randint(1, 4) * 100000 for _ in range(n))
                 else: ts = sorted(rnd.randint(1, 4) * 100000 + rnd.choice([1, 2, 3600, 43200, 86399, rnd.randint(1, 86399)]) for _ in range(n))
-            if ts and ts[0] % 100000 and rnd.random() < 0.15: u = u.upper()     # an event of two RRULEs plus RDATEs with these occurrences (a merge inside the event)
+            if not mixed and rnd.random() < 0.04:
+                # 70..150 occurrences one minute apart: written as a rule, the constituent refills its cache while it is merged
+                m0 = rnd.randint(1, 3000); ts = [m0 + 60 * j for j in range(rnd.randint(70, 150))]
+            if ts and ts[0] % 100000 and rnd.random() < 0.15 and len(ts) < 66: u = u.upper()     # an event of two RRULEs plus RDATEs with these occurrences (a merge inside the event)
             cons.append([[t, u] for t in ts])
         tot = sum(len(c) for c in cons)
         ops = ''.join(rnd.choice('NPPP') for _ in range(tot + rnd.randint(0, 4))) + 'PP'
@@ -73,7 +76,7 @@ def run(tier, seed):
     cov = {'states': e1['states'], 'transitions': e1['transitions'], 'traces_validated_against_impl': v['n'],
            'samples': [json.loads(outl[len(outl) // 3]), json.loads(outl[-1])] if outl else [],
            'evaluations': v['n'], 'distinct_nontrivial': distinct,
-           'rule': 'one case = one run of the real echs_evstrm_vmux merge: constituent streams (each a parsed VEVENT with an RDATE list and its UID) plus an op string of peeks/pops. Model part: a set of paths through the MuxE1 state graph that traverses every edge (every reachable transition of the bounded model is executed on the real code). Random part: 2..12 constituents, up to 40 occurrences, shared UIDs, ties; one constituent in seven is an event of two RRULEs plus RDATEs; in three of ten all-day constituents (VALUE=DATE) are merged with timed ones over the same days',
+           'rule': 'one case = one run of the real echs_evstrm_vmux merge: constituent streams (each a parsed VEVENT with an RDATE list and its UID) plus an op string of peeks/pops. Model part: a set of paths through the MuxE1 state graph that traverses every edge (every reachable transition of the bounded model is executed on the real code). Random part: 2..12 constituents, up to 40 occurrences, shared UIDs, ties; one constituent in seven is an event of two RRULEs plus RDATEs, one in twenty-five a rule of 70..150 occurrences (it refills its cache while merged); in three of ten all-day constituents (VALUE=DATE) are merged with timed ones over the same days',
            'model_graph_edges': nedges, 'model_graph_edges_replayed': ncov, 'model_scripts': nmodel, 'random_scripts': nrand,
            'mismatching_runs': v['nbad'], 'skipped': v['nskip'], 'model_drift_runs': ndrift,
            'e1_constants': 'up to 3 constituents x up to %d occurrences over times 1..3 x uids {a,b}; <= 2 peeks in a row; until 2 end-of-stream pops' % (3 if tier == 'thorough' else 2),
